@@ -35,6 +35,18 @@ CLAIMS = {
     note="Trusted: Kani/CBMC, the transcription of the standard's figures in harness/root/refbmca.rs; "
          "foreign-master list contents are abstracted (one qualified candidate per port via a stub of take_best_port_announce_message).",
     ref="4/C05"),
+ "C06": dict(
+    technique="Kani/CBMC one-operation inductive steps on the real ForeignMasterList / ForeignMaster / Bmca code from arbitrary list states (record/list assume-guarantee split)",
+    text="Bounded model checking of one operation (ageing step, registration, qualified-message take, Bmca::take_best_port_announce_message) of the real list code from an arbitrary "
+         "list state satisfying the stated representation invariant: every shape of 0..=2 records with 1..=2 messages (capacities scaled 8 -> 2), symbolic ages, sequence ids, "
+         "stepsRemoved, sender (known master / new master / own clock) and step lengths; Announce payloads concrete. Decides, by induction over operations: a master is offered to the "
+         "state decision only with two Announces younger than four announce intervals, never with stepsRemoved >= 255 or the own clock identity, also across the 65535->0 wrap; "
+         "a silent master is gone at the first BMCA run at or after four intervals; a message inside the window is never dropped; each BMCA run restores the record of Erbest and "
+         "leaves every other master its older message.",
+    note="Trusted: Kani/CBMC; the documented behaviour of arrayvec's ArrayVec::retain / remove (replaced by element-wise equivalents for <= 2 elements in the record-level and Bmca-level harnesses); "
+         "the record/list split (record-level functions decided stand-alone, replaced by argument-recording stubs at list level). Outside: capacities 8 x 8, symbolic Announce payloads, and the "
+         "interplay over time of arrival phases, BMCA runs and the receipt timer (the sixteen-interval horizon of the quantifier) - in particular 'a regularly announcing master is never dropped as a candidate' is NOT decided.",
+    ref="4/C06"),
  "C07": dict(
     technique="Kani/CBMC one-step no-op harnesses (state snapshot before/after) + byte gate on symbolic frames",
     text="Non-interference reduced to a one-step no-op property: from an arbitrary state, a frame of a foreign domain/sdoId/version or malformed, an Announce from an unacceptable "
@@ -121,7 +133,6 @@ CLAIMS = {k: v for k, v in CLAIMS.items() if k in ACTIVE}
 NOT_APPLICABLE = {
  "C01": "multi-instance, multi-interval convergence; needs the foreign-master lists and timers over time - beyond any bounded unrolling CBMC can carry here (list operations alone time out) and there is no inductive per-step invariant that implies global convergence",
  "C02": "closed-loop convergence of a floating-point Kalman servo over hundreds of steps; bit-precise f64 matrix algebra does not unroll (one command stage = 500 s of CBMC), and reals are not floats",
- "C06": "every operation that walks ForeignMasterList (nested ArrayVec of 13 KB moved by value) exceeds CBMC's reach (>7-20 min or >25 GB for 1-2 operations); only the stateless qualification predicate is decidable and is reported under C07",
  "C19": "serde_json + fmt/String formatting + HTTP framing in a tokio binary: not encodable for a bit-precise solver; no MIR-level model of serde",
  "C20": "liveness of an async TCP accept loop under I/O faults: tokio runtime and kernel are not modellable by the engines available",
 }
